@@ -26,7 +26,7 @@ ASSUMPTIONS = [
     "pandas round trips are checked for column types pandas can carry (no list-valued or quality columns).",
 ]
 REQUIRED_CLASSES = ["table-read-from-file", "dict-roundtrip", "bam", "concat", "sort_by", "replace", "add_fields", "pandas", "from_entry_tuples", "bad-construction", "empty-operand", "single-row-operand",
-                    "dynamic-class", "nested-table", "mixed-dtype-concat", "int-index", "rows-taken-by-tolist-first", "text-column-given-as-64-bit-character-codes", "results-reach-later-steps-unread"]
+                    "dynamic-class", "nested-table", "mixed-dtype-concat", "int-index", "rows-taken-by-tolist-first", "text-column-given-as-64-bit-character-codes", "results-reach-later-steps-unread", "concatenation-starting-from-an-empty-table"]
 BOUNDS = {"quick": "300 programs of up to 12 steps for each of 16 table types, tables of up to 6 rows", "thorough": "4000 programs of up to 30 steps per type, tables of up to 20 rows"}
 BUDGET_S = {"quick": 200, "thorough": 1500}
 
@@ -202,8 +202,10 @@ def classify(case):
         cl.append("empty-operand")
     if len(case["rows"]) == 1:
         cl.append("single-row-operand")
-    if any(op["op"] == "concat" and op.get("variant", 0) for op in case["program"]):
+    if any(op["op"] == "concat" and op.get("variant", 0) in (1, 2) for op in case["program"]):
         cl.append("mixed-dtype-concat")
+    if any(op["op"] == "concat" and op.get("variant", 0) == 3 for op in case["program"]) and case["rows"]:
+        cl.append("concatenation-starting-from-an-empty-table")
     kinds = {k for _, k in kinds_of(tname)}
     reps = {"nd" if k in ("int", "uint", "pos", "float", "bool") else "other" for k in kinds}
     nontrivial = len(case["program"]) >= 2 and len(reps) == 2 and ("empty-operand" in cl or "single-row-operand" in cl)
@@ -319,7 +321,11 @@ def check(case, stats=None):
                     T2 = build(tname, R2, 0)
                 elif op.get("variant"):
                     T2 = build(tname, R2, op["variant"])      # same rows, other valid dtypes
-                new = np.concatenate([T, T2])
+                if op.get("variant") == 3:
+                    # appending to an empty table: an empty table built afresh (plain text, default dtypes) comes first, then the two operands
+                    new = np.concatenate([build(tname, [], 0), T, T2]) if (n or len(R2)) else np.concatenate([T, T2])
+                else:
+                    new = np.concatenate([T, T2])
                 pool.append((new, R + R2))
                 verify(new, R + R2, op)
             elif name == "sort_by":
@@ -515,7 +521,7 @@ def op_strategy():
         st.builds(lambda s, a, b, c: {"op": "slice", "src": s, "start": a, "stop": b, "step": c}, src, small, small, st.one_of(st.none(), st.sampled_from([1, 2, -1, -2]))),
         st.builds(lambda s, b: {"op": "mask", "src": s, "bits": [int(x) for x in b]}, src, st.lists(st.booleans(), min_size=1, max_size=6)),
         st.builds(lambda s, i: {"op": "ilist", "src": s, "idx": i}, src, st.lists(st.integers(0, 30), max_size=6)),
-        st.builds(lambda s, t, v: {"op": "concat", "src": s, "src2": t, "variant": v}, src, src, st.sampled_from([0, 0, 1, 2])),
+        st.builds(lambda s, t, v: {"op": "concat", "src": s, "src2": t, "variant": v}, src, src, st.sampled_from([0, 0, 1, 2, 3])),
         st.builds(lambda s, c: {"op": "sort_by", "src": s, "col": c}, src, st.integers(0, 8)),
         st.builds(lambda s: {"op": "iterate", "src": s}, src),
         st.builds(lambda s, c, sd: {"op": "replace", "src": s, "col": c, "seed": sd}, src, st.integers(0, 8), st.integers(0, 999)),
